@@ -380,3 +380,39 @@ PROPS["C01"] = dict(
             Stage("c01", pkg="mon_stark", variant="chk", kind="sharded", n=(160, 3000), timeout=(900, 3600), args=["--exact", "1"]),
             Stage("c01", pkg="mon_stark", variant="par", kind="sharded", n=(120, 2000), timeout=(900, 3600), threads=4, args=["--maxlogn", "12"])],
 )
+
+PROPS["C02"] = dict(
+    level="exploration",
+    rule="per random GenAir instance (as C01, trace length 2^3..2^7 (thorough 2^10)): every corruption class (single cell at "
+         "first / interior / last non-exempt / next-of-last-non-exempt / first fully exempt / last row, in a constrained and "
+         "in a random column; an asserted cell of every assertion; a whole row; a whole column; two rows) is classified by "
+         "the independent checker: unsatisfying => release prover (no debug validation) then verifier must not accept "
+         "(prover refusal is allowed and counted); still satisfying => must still verify; auxiliary cells at rows "
+         "{0, 1, n-e, n-e+1, n-1}; the honest proof verified against public inputs with an asserted value / constraint "
+         "constant / asserted step / periodic value changed; evaluation = one verification; distinct = instances",
+    assumptions=["a false statement proved by the honest pipeline fails the out-of-domain consistency check except with "
+                 "probability <= degree/|extension field| <= 2^-40 for every supported field, independent of the number of "
+                 "queries, so 1-query and blowup-2 parameter sets are in scope",
+                 "which edits make the statement false is decided by the independent checker (main segment) or by the "
+                 "definition of the auxiliary columns (row 0 or a row reached as 'next' of a non-exempt step)"],
+    floor=40,
+    stages=[Stage("c02", pkg="mon_stark", variant="rel", kind="sharded", n=(400, 12000), timeout=(900, 3600)),
+            Stage("c02", pkg="mon_stark", variant="par", kind="sharded", n=(60, 1000), timeout=(900, 3600), threads=3)],
+)
+
+PROPS["C29"] = dict(
+    level="exploration",
+    rule="per random GenAir instance (as C01; base, quadratic and cubic auxiliary fields): Trace::validate on the satisfying "
+         "trace and on every corruption class (cells at first / interior / last non-exempt / next-of-last-non-exempt / first "
+         "fully exempt / last row in constrained and random columns, every assertion's cell, a row, a column, two rows; "
+         "auxiliary cells at 7 row classes): validate panics with its violation message <=> the independent checker "
+         "(reference arithmetic, periodic values by index, auxiliary columns in reference extension arithmetic) reports a "
+         "violation; TraceTable fill vs init vs fragments of every length 2..n (rayon in the concurrent build), widths 1..9, "
+         "n = 8..4096; evaluation = one validate call or table comparison; distinct = instances",
+    assumptions=["the independent checker shares only the specification value with the AIR implementation",
+                 "validate is called directly (it does not depend on debug_assertions)"],
+    floor=100,
+    stages=[Stage("c29", pkg="mon_stark", variant="rel", kind="sharded", n=(4000, 150000), timeout=(900, 3600)),
+            Stage("c29", pkg="mon_stark", variant="chk", kind="sharded", n=(800, 10000), timeout=(900, 3600)),
+            Stage("c29", pkg="mon_stark", variant="par", kind="sharded", n=(800, 10000), timeout=(900, 3600), threads=5)],
+)
